@@ -33,7 +33,7 @@ def main():
         marks = [(False, True), (False, False), (True, True), (True, False)] if has_des else [(False, None), (True, None)]
         variants = [('sdw', 1)]
         for sname, S in subjects.items():
-          for build, copies in ([('sdw', 1), ('mapping', 1), ('sdw', 7), ('ticked', 1), ('prefilled', 1)] if sname in ('atom', 'pred') else [('sdw', 1)]):
+          for build, copies in ([('sdw', 1), ('mapping', 1), ('sdw', 7), ('ticked', 1), ('prefilled', 1), ('reversed', 1)] if sname in ('atom', 'pred') else [('sdw', 1), ('reversed', 1)]):
             for w in worlds:
                 for k in range(len(marks) + 1):
                     for sub in itertools.combinations(marks, k):
@@ -49,7 +49,8 @@ def main():
                                 b = Branch()
                             else:
                                 b = tab.branch()
-                            for neg, d in sub:
+                            # ('reversed': the same literals arriving in the opposite order)
+                            for neg, d in (sub[::-1] if build == 'reversed' else sub):
                                 for _ in range(copies):
                                     sent = ~S if neg else S
                                     if build == 'mapping':
